@@ -105,6 +105,7 @@ func genC10(seed int64, tier string) *Plan {
 }
 
 type c10Doc struct {
+	createQ string // the mutation that created it
 	private bool
 	deleted bool
 	readers map[string]bool
@@ -289,7 +290,7 @@ func (r *c10Run) exec(i int, s Step) {
 			return
 		}
 		docID := fmt.Sprint(rows(data, "create_User")[0]["_docID"])
-		r.docs[docID] = &c10Doc{private: private, readers: map[string]bool{}, name: fmt.Sprintf("n%d", r.seq)}
+		r.docs[docID] = &c10Doc{createQ: q, private: private, readers: map[string]bool{}, name: fmt.Sprintf("n%d", r.seq)}
 		if !private {
 			d2, errs := r.pub.GQLAs(anon, q)
 			if len(errs) > 0 || fmt.Sprint(rows(d2, "create_User")[0]["_docID"]) != docID {
@@ -371,8 +372,20 @@ func (r *c10Run) exec(i int, s Step) {
 		before := r.ownerView()
 		who := []immutable.Option[identity.Identity]{some(r.stranger), anon, some(r.reader)}[mod(s.B, 3)]
 		whoName := []string{"stranger", "anonymous", "reader"}[mod(s.B, 3)]
+		histBefore, _ := r.real.GQLAs(some(r.owner), fmt.Sprintf(`query { commits(docID: %q) { cid } }`, docID))
 		r.real.GQLAs(who, fmt.Sprintf(`mutation { update_User(docID: %q, input: {age: 99}) { _docID } }`, docID))
 		r.real.GQLAs(who, fmt.Sprintf(`mutation { delete_User(docID: %q) { _docID } }`, docID))
+		// a create with the very content of the private document (it would get the same docID)
+		if whoName != "reader" {
+			r.real.GQLAs(who, r.docs[docID].createQ)
+			synctest.Wait()
+			histAfter, _ := r.real.GQLAs(some(r.owner), fmt.Sprintf(`query { commits(docID: %q) { cid } }`, docID))
+			if a, b := canon(sortRows(rows(histBefore, "commits"), "cid")), canon(sortRows(rows(histAfter, "commits"), "cid")); a != b {
+				r.res.violate("C10", "write-without-permission-took-effect", "create-with-same-content/"+whoName, r.step,
+					"a %s create with the content of private document %s changed its commit history: %d commits before, %d after", whoName, docID, len(rows(histBefore, "commits")), len(rows(histAfter, "commits")))
+				return
+			}
+		}
 		// a filtered update legitimately touches the public documents
 		fq := `mutation { update_User(filter: {age: {_ge: 0}}, input: {team: "hacked"}) { _docID } }`
 		_, ferrs := r.real.GQLAs(who, fq)
@@ -524,6 +537,20 @@ func (r *c10Run) check(i int, after string) {
 				return
 			}
 			r.shape["read-at-commit|"+who.name] = true
+			// the commit itself, asked for by its cid (with and without depth, with and without the docID)
+			for _, cq := range []string{
+				fmt.Sprintf(`query { commits(cid: %q) { cid docID delta height } }`, c),
+				fmt.Sprintf(`query { commits(cid: %q, depth: 3) { cid docID delta height } }`, c),
+				fmt.Sprintf(`query { commits(docID: %q, cid: %q) { cid docID delta height } }`, id, c),
+			} {
+				dc, _ := r.real.GQLAs(who.id, cq)
+				r.res.Stats["requests_compared"]++
+				if len(rows(dc, "commits")) > 0 {
+					r.res.violate("C10", "private-document-readable", "commit-by-cid/"+who.name, i, "%s as %s returned %s", cq, who.name, short(canon(dc)))
+					return
+				}
+			}
+			r.shape["commit-by-cid|"+who.name] = true
 		}
 	}
 	// the reader: same requests as the owner would get with the documents hidden from the reader filtered out
